@@ -1,18 +1,69 @@
-(** Property C09 — statements only. Each theorem is closed by [exact] of a lemma
-    proved elsewhere and followed by [Print Assumptions]. *)
-From CR Require Import Base Atomic Machine LinksFacts HeapFacts TraceFacts Local.
+(** Property C09 — what an operation destroys does not depend on addresses or
+    table order. Table order = order of the association lists ([heap_perm]:
+    same heap up to permutation of every table); member order of a group
+    teardown = the choice oracle [pri]. *)
+From Coq Require Import Permutation.
+From CR Require Import Base Atomic Machine LinksFacts HeapFacts TraceFacts TraceTotal Local StackBound
+  Termination Perm StdRc StdRefine Tokens InvDef InvLemmas ActBase ActHandles ActAdopt ActMove ActConsume
+  StepFrames StepPanic Purge GroupOps DropDec Group DropLast StepInv RunInv Consequences Common.
 Local Open Scope N_scope.
 
-Theorem C09_trace_result_partial :
-  forall h a own pops visits,
+Theorem C09_trace_result_order_independent :
+  forall h h' a own pops visits own' pops' visits',
+  heap_perm h h' ->
   cycle_refs h a = Ok (own, pops, visits) ->
-  exists R,
-    NoDup R /\ (forall y, In y R <-> reach h a y) /\
-    (forall y, own_get own y = sumN (map (fun x => cntF (tbl_of h x) y) R)) /\
-    (forall y, In y (map fst own) <-> exists x, In x R /\ linked h x y) /\
-    NoDup (map fst own) /\
-    visits = N.of_nat (length R) /\
-    pops = (1 + sumN (map (fun x => N.of_nat (length (fwd_targets (tbl_of h x)))) R))%N.
-Proof. exact cycle_refs_spec. Qed.
-Print Assumptions C09_trace_result_partial.
+  cycle_refs h' a = Ok (own', pops', visits') ->
+  (forall y, own_get own' y = own_get own y) /\
+  (forall y, In y (map fst own') <-> In y (map fst own)) /\ pops' = pops /\ visits' = visits.
+Proof. exact cycle_refs_perm. Qed.
+Print Assumptions C09_trace_result_order_independent.
 
+Theorem C09_orphan_decision_order_independent :
+  forall h h' a oc p v oc' p' v',
+  heap_perm h h' ->
+  orphaned_cycle h a = Ok (oc, p, v) ->
+  orphaned_cycle h' a = Ok (oc', p', v') ->
+  match oc with
+  | Some c =>
+      match oc' with
+      | Some c' =>
+          (forall y, own_get c' y = own_get c y) /\
+          (forall y, In y (map fst c') <-> In y (map fst c))
+      | None => False
+      end
+  | None => match oc' with Some _ => False | None => True end
+  end /\ p' = p /\ v' = v.
+Proof. exact orphaned_cycle_perm. Qed.
+Print Assumptions C09_orphan_decision_order_independent.
+
+(** Rc::drop as a whole, for two table orders AND two choice oracles: the
+    resulting states agree up to table order and member order inside the
+    group ([state_perm], [frame_rel]): same objects destroyed, same counters *)
+Theorem C09_drop_order_independent :
+  forall pri pri' s s' o s1 fr s1' fr',
+  state_perm s s' -> heap_wf (heap_of s) ->
+  drop_strong pri s o = Ok (s1, fr) ->
+  drop_strong pri' s' o = Ok (s1', fr') -> state_perm s1 s1' /\ Forall2 frame_rel fr fr'.
+Proof. exact drop_strong_perm. Qed.
+Print Assumptions C09_drop_order_independent.
+
+(** the member order of a teardown changes only the order of destruction *)
+Theorem C09_member_order_irrelevant :
+  forall pri pri' cyc h h2 h3 inn,
+  NoDup (map fst cyc) ->
+  let c1 := order_cycle pri cyc in
+  let c2 := order_cycle pri' cyc in
+  bust_all h (map fst c1) c1 = Ok h2 ->
+  gather h2 (map fst c1) [] = Ok (h3, inn) ->
+  bust_all h (map fst c2) c2 = Ok h2 /\
+  (exists inn', gather h2 (map fst c2) [] = Ok (h3, inn') /\ Permutation inn inn') /\
+  (forall hx hf, finish_group hx (map fst c1) = Ok hf -> finish_group hx (map fst c2) = Ok hf).
+Proof. exact drop_cycle_oracle_indep. Qed.
+Print Assumptions C09_member_order_irrelevant.
+
+(** and the invariant (hence C01-C08) holds for EVERY oracle: all theorems of
+    Inv/ quantify over [pri] *)
+Theorem C09_every_oracle :
+  forall pri c, Inv_cfg c -> step_hyp c -> step_goal c (step pri c).
+Proof. exact step_inv. Qed.
+Print Assumptions C09_every_oracle.
